@@ -156,7 +156,11 @@ func (app *Application) disburseFeesVQ(
 	if err = shareNextProposer.Mul(&consensusParameters.FeeSplitWeightNextPropose); err != nil {
 		return fmt.Errorf("multiply shareNextProposer: %w", err)
 	}
-	if err = shareNextProposer.Quo(denom); err != nil {
+	if denom.IsZero() {
+		// Both weights are zero (the parameters changed after the fees were persisted), so neither the
+		// voters nor the next proposer get a share and everything goes into the common pool below.
+		perValidator = quantity.NewQuantity()
+	} else if err = shareNextProposer.Quo(denom); err != nil {
 		return fmt.Errorf("divide shareNextProposer: %w", err)
 	}
 	shareVote := perValidator.Clone()
